@@ -93,7 +93,7 @@ func (c *Context) callContractOf(fn *ssa.Function) *FuncContract {
 		if fc.Func != name {
 			continue
 		}
-		if fc.Trusted || fc.Pure || c.prop == "" || fc.hasProp(c.prop) && (len(fc.Clauses) > 0 || len(fc.Assigns) > 0 || fc.Frame || len(fc.EffectCl) == 0) {
+		if fc.Trusted || fc.Pure || c.prop == "" || fc.hasProp(c.prop) && (!fc.FromTemplate || len(fc.Clauses) > 0 || len(fc.Assigns) > 0 || fc.Frame || len(fc.EffectCl) == 0) {
 			return fc
 		}
 	}
